@@ -74,7 +74,8 @@ CLAIMED = {
          'Change handlers and sub-handlers (also across stops/kills/restarts), timers and daemons with drawn errors mode, retries, '
          'timeout, backoff and exception scripts; per attempt sequence: spacing, permanence, ignored => done (also the recorded '
          'verdict, and timers going on), attempts <= retries, nothing after the timeout, recorded failed afterwards; API errors on the '
-         'patches of timer attempts; a timer that failed for good is never started anew in the process.',
+         'patches of timer attempts; a timer that failed for good is never started anew in the process; wall-clock jumps between the '
+         'incarnations of a restarted operator (bounds relaxed by the jump).',
          'DESIGN.md section 5 / C11',
          'activities (startup/cleanup/login) are exercised in C20\'s workload'),
  'C12': ('exploration',
